@@ -4,7 +4,13 @@ so that the file stays valid while properties are added one by one."""
 import json, os, sys
 HERE = os.path.dirname(os.path.abspath(__file__))
 sys.path.insert(0, os.path.dirname(HERE))
-from lib.manifest_entries import CHECKS, NOT_YET, HOOK_COMMITS
+ROOT = os.path.dirname(HERE)
+CHECKS = {}
+for fn in sorted(os.listdir(os.path.join(ROOT, "manifest.d"))):
+    if fn.endswith(".json") and fn[0] == "C":
+        CHECKS[fn[:-5]] = json.load(open(os.path.join(ROOT, "manifest.d", fn)))
+extra = json.load(open(os.path.join(ROOT, "manifest.d", "_global.json")))
+NOT_YET, HOOK_COMMITS = extra.get("not_applicable", {}), extra.get("hook_commits", [])
 
 ALL = [f"C{n:02d}" for n in range(1, 21)]
 checks = []
@@ -19,7 +25,7 @@ for pid in ALL:
         "evidence_file": f"evidence/{pid}.json",
         "replay_cmd_template": f"./check {pid} --replay {{path}}",
         "engine": "lean4-proof+correspondence",
-        "level_claimed": {"category": "proof", "text": c["text"], "design_ref": c["design_ref"]},
+        "level_claimed": {"category": c.get("category", "proof"), "text": c["text"], "design_ref": c["design_ref"]},
         "level_note": c["note"],
         "technique": c["technique"],
     })
